@@ -15,13 +15,13 @@ from mcheck.core.runner import Ctx, Result, Violation
 from mcheck.props import applycommon as AC
 
 ID = "C16"
-PLACEMENTS = ["top", "after_docstring", "after_future", "in_function", "in_type_checking", "after_code", "type_checking_in_try"]
+PLACEMENTS = ["top", "after_docstring", "after_future", "in_function", "in_type_checking", "after_code", "type_checking_in_try", "in_try", "in_with", "in_for", "in_class"]
 FORMS = ["import_pkg", "import_sub", "from_import", "from_import_as", "from_star", "import_as"]
 USES = [True, False]
 STUBKINDS = ["new_user_module", "typing_name", "already_imported_name", "typed_dict", "same_module_other_name", "no_new_import", "user_module_named_like_typing", "same_short_name_other_module"]
 RULE = (
     "complete product of import placement {top, after docstring, after __future__, inside a function, inside an existing "
-    "`if TYPE_CHECKING:`, after module code} x form {import a, import a.b, from a import b, from a import b as c, from a "
+    "`if TYPE_CHECKING:`, after module code, inside a module-level try / with / for block, inside a class body} x form {import a, import a.b, from a import b, from a import b as c, from a "
     "import *, import a as x} x runtime use {yes,no} x what the stub imports {new user module, typing name, a name the "
     "source already imports, mypy_extensions.TypedDict via a generated class (k=3), another name of the same module} x "
     "overwrite {F,T}; state = one application with confinement on, transition = one oracle clause (future import first, new "
@@ -41,6 +41,7 @@ def gen_source(pl: str, form: str, use: bool) -> Tuple[str, str]:
         "from_import_as": ("from shp import Circle as C", "C().area()"),
         "from_star": ("from shp import *", "Circle().area()"),
         "import_as": ("import shp as S", "S.Circle().area()"),
+        "from_relative": ("from .rsub import Tri", "Tri().area()"),
     }[form]
     stmt, expr = imp
     L: List[str] = []
@@ -58,6 +59,15 @@ def gen_source(pl: str, form: str, use: bool) -> Tuple[str, str]:
         L += ["import os", stmt, "try:", "    from typing import TYPE_CHECKING", "except ImportError:", "    TYPE_CHECKING = False"]
     elif pl == "after_code":
         L += ["import os", "VALUE = os.sep", stmt]
+    elif pl == "in_try":
+        L += ["import os", "try:", "    " + stmt, "except ImportError:", "    shp = Circle = C = S = None"]
+    elif pl == "in_with":
+        L += ["import os", "with open(os.devnull) as _f:", "    " + stmt]
+    elif pl == "in_for":
+        L += ["import os", "for _i in range(1):", "    " + stmt]
+    elif pl == "in_class":
+        L += ["import os", "class Holder:", "    " + (stmt if form != "from_star" else "import shp"), "    held = 1"]
+        use = False  # bound as a class attribute, not a module global
     else:
         L += ["import os", stmt]
     L += ["", ""]
@@ -135,9 +145,11 @@ def check(src: str, stub: str, res: str, case: Dict[str, Any]) -> List[Tuple[str
             out.append(("original-import", sig, f"import {item} of the source is {'now at ' + str([m[3] for m in moved]) if moved else 'gone'} in the result"))
     # 3. new annotation-only imports are confined
     stub_imps = AC.stub_imports(stree)
-    okeys = {i[:3] for i in oinv}
+    # (an import is "of the original" only at the place where the original has it: a module-level copy of a name the source
+    # imports inside a function or under TYPE_CHECKING is new)
+    okeys = {i for i in oinv}
     for item in rinv:
-        if item[:3] in okeys:
+        if item in okeys:
             continue
         module, name, asname, where = item
         if module in ("typing", "__future__"):
@@ -151,6 +163,9 @@ def check(src: str, stub: str, res: str, case: Dict[str, Any]) -> List[Tuple[str
     # 4. the result executes and behaves as before
     ns_o: Dict[str, Any] = {"__name__": "c16_orig"}
     ns_r: Dict[str, Any] = {"__name__": "c16_res"}
+    if case.get("pkg"):
+        ns_o = {"__name__": case["pkg"] + ".c16_orig", "__package__": case["pkg"]}
+        ns_r = {"__name__": case["pkg"] + ".c16_res", "__package__": case["pkg"]}
     try:
         exec(compile(src, "<orig>", "exec"), ns_o)
     except Exception as e:  # noqa: BLE001
@@ -208,6 +223,87 @@ def run_case(res: Result, ctx: Ctx, ci: int, c, srcdir: Path) -> None:
     del sys.modules[modname]
 
 
+def run_seq(res: Result, ctx: Ctx, qi: int, pl: str, fo: str, srcdir: Path) -> None:
+    """Two functions annotated by two successive applications (both with confinement): the second stub needs the import the
+    first application already confined. The second result is judged against the FIRST result as its source."""
+    from monkeytype.cli import apply_stub_using_libcst
+    from monkeytype.stubs import build_module_stubs_from_traces
+    from monkeytype.tracing import CallTrace
+
+    import vfx.shapes as S
+    from typing import List as L
+
+    src, expr = gen_source(pl, fo, True)
+    modname = f"c16q_{ctx.seed}_{qi}"
+    (srcdir / f"{modname}.py").write_text(src)
+    importlib.invalidate_caches()
+    mod = importlib.import_module(modname)
+    case = {"ci": -1, "seq": qi, "placement": pl, "form": fo, "use": True, "stub": "second-apply-needs-confined-import", "overwrite": False}
+    res.states += 1
+    try:
+        stub1 = build_module_stubs_from_traces([CallTrace(mod.work, {"x": S.Derived, "y": type(None)}, L[S.Derived], None)], 0)[modname].render()
+        stub2 = build_module_stubs_from_traces([CallTrace(mod.plain, {"z": S.Derived}, S.Derived, None)], 0)[modname].render()
+        r1 = apply_stub_using_libcst(stub=stub1, source=src, overwrite_existing_annotations=False, confine_new_imports_in_type_checking_block=True)
+        r2 = apply_stub_using_libcst(stub=stub2, source=r1, overwrite_existing_annotations=False, confine_new_imports_in_type_checking_block=True)
+    except Exception as e:  # noqa: BLE001
+        res.violate(Violation(ID, "apply-failed", type(e).__name__, case, f"raised {type(e).__name__}: {str(e)[:300]}"))
+        del sys.modules[modname]
+        return
+    res.evaluations += 1
+    res.validated += 1
+    res.transitions += 4
+    for kind, sig, msg in check(r1, stub2, r2, case):
+        res.violate(Violation(ID, kind, "second-apply:" + sig, case, "second application on the result of the first: " + msg + f"\n--- first result ---\n{r1[:500]}\n--- second result ---\n{r2[:600]}"))
+    res.oblige("saw:second-apply", True)
+    del sys.modules[modname]
+
+
+REL_PLACEMENTS = ["top", "after_docstring", "after_future", "in_function", "after_code", "in_try"]
+REL_STUBS = ["top_level_namesake_module", "new_user_module", "typing_name"]
+
+
+def run_rel(res: Result, ctx: Ctx, ri: int, pl: str, sk: str, srcdir: Path) -> None:
+    """The annotated module lives in a package and imports `from .rsub import Tri` (used at runtime); the stub brings the
+    same short name from the TOP-LEVEL module rsub (or an unrelated import): the relative import stays, the module works."""
+    from monkeytype.cli import apply_stub_using_libcst
+    from monkeytype.stubs import build_module_stubs_from_traces
+    from monkeytype.tracing import CallTrace
+
+    import rsub
+    import vfx.shapes as S
+    from typing import List as L
+
+    pkg = f"c16rel_{ctx.seed}_{ri}"
+    (srcdir / pkg).mkdir(exist_ok=True)
+    (srcdir / pkg / "__init__.py").write_text("")
+    (srcdir / pkg / "rsub.py").write_text("class Tri:\n    def area(self):\n        return 1\n")
+    src, expr = gen_source(pl, "from_relative", True)
+    (srcdir / pkg / "mod.py").write_text(src)
+    importlib.invalidate_caches()
+    mod = importlib.import_module(pkg + ".mod")
+    case = {"ci": -2, "rel": ri, "placement": pl, "form": "from_relative", "use": True, "stub": sk, "overwrite": False, "pkg": pkg}
+    res.states += 1
+    try:
+        tr = {"top_level_namesake_module": CallTrace(mod.work, {"x": rsub.Tri, "y": type(None)}, rsub.Tri, None),
+              "new_user_module": CallTrace(mod.work, {"x": S.Derived, "y": type(None)}, L[S.Derived], None),
+              "typing_name": CallTrace(mod.work, {"x": L[int], "y": int}, L[int], None)}[sk]
+        stub = build_module_stubs_from_traces([tr], 0)[pkg + ".mod"].render()
+        result = apply_stub_using_libcst(stub=stub, source=src, overwrite_existing_annotations=False, confine_new_imports_in_type_checking_block=True)
+    except Exception as e:  # noqa: BLE001
+        res.violate(Violation(ID, "apply-failed", type(e).__name__, case, f"raised {type(e).__name__}: {str(e)[:300]}"))
+        return
+    res.evaluations += 1
+    res.validated += 1
+    res.transitions += 4
+    for kind, sig, msg in check(src, stub, result, case):
+        res.violate(Violation(ID, kind, "relative-import:" + sig, case, "package-relative source: " + msg + f"\n--- source ---\n{src[:400]}\n--- stub ---\n{stub[:300]}\n--- result ---\n{result[:600]}"))
+    res.oblige("saw:relative-import-source", True)
+
+
+def seq_cases() -> List[Tuple[str, str]]:
+    return [(pl, fo) for pl in PLACEMENTS for fo in FORMS if pl != "in_class"]
+
+
 def run(ctx: Ctx) -> Result:
     cs = all_cases()
     nshards = ctx.workers * 2
@@ -219,10 +315,18 @@ def run(ctx: Ctx) -> Result:
         sys.path.insert(0, str(srcdir))
         for ci in range(shi, len(cs), nshards):
             run_case(res, ctx, ci, cs[ci], srcdir)
+        sq = seq_cases()
+        for qi in range(shi, len(sq), nshards):
+            run_seq(res, ctx, qi, sq[qi][0], sq[qi][1], srcdir)
+        rl = [(pl, sk) for pl in REL_PLACEMENTS for sk in REL_STUBS]
+        for ri in range(shi, len(rl), nshards):
+            run_rel(res, ctx, ri, rl[ri][0], rl[ri][1], srcdir)
         return res
 
     res = run_shards(ctx, shard, list(range(nshards)))
     res.obligations.setdefault("saw:type-checking-block", False)
+    res.obligations.setdefault("saw:second-apply", False)
+    res.obligations.setdefault("saw:relative-import-source", False)
     res.bounds.update({"placements": len(PLACEMENTS), "forms": len(FORMS), "uses": 2, "stub_kinds": len(STUBKINDS), "overwrite": 2, "cases": len(cs)})
     return res
 
@@ -232,6 +336,14 @@ def replay(case: Dict[str, Any], ctx: Ctx) -> List[Violation]:
     srcdir = ctx.tmp / "c16_replay"
     srcdir.mkdir(exist_ok=True)
     sys.path.insert(0, str(srcdir))
+    if case.get("ci") == -2:
+        rl = [(pl, sk) for pl in REL_PLACEMENTS for sk in REL_STUBS]
+        run_rel(res, ctx, case["rel"], rl[case["rel"]][0], rl[case["rel"]][1], srcdir)
+        return res.violations
+    if case.get("ci") == -1:
+        sq = seq_cases()
+        run_seq(res, ctx, case["seq"], sq[case["seq"]][0], sq[case["seq"]][1], srcdir)
+        return res.violations
     cs = all_cases()
     run_case(res, ctx, case["ci"], cs[case["ci"]], srcdir)
     return res.violations
